@@ -73,13 +73,13 @@ theorem mem_cache_tick {h : BranchH} {i : Nat} {r : RuleId} {j : Nat} :
 
 /-! ### the branch-local invariant -/
 
-structure HInv (L : LogicData) (mw : Nat) (dead : RuleId → Nat → Prop) (b : Branch) (h : BranchH) : Prop where
+structure HInv (L : LogicData) (mw mc : Nat) (dead : RuleId → Nat → Prop) (b : Branch) (h : BranchH) : Prop where
   windex : ∀ a c, (a, c) ∈ h.windex ↔ Node.access a c ∈ b.nodes
   unserial : ∀ w, w ∈ h.unserial ↔ (w ∈ b.nodes.flatMap Node.worlds ∧ hasAccessFrom b w = false)
   cacheSound : ∀ r i, i ∈ h.cache r → ∃ nd, b.nodes[i]? = some nd ∧ matchesRule r nd = true ∧
       (ignoreTicked r = true → i ∉ b.ticked)
   cacheComplete : ∀ r i nd, b.nodes[i]? = some nd → matchesRule r nd = true →
-      (ignoreTicked r = true → i ∉ b.ticked) → (i ∈ h.cache r ∧ ¬ dead r i) ∨ releasable L mw b h r i = true
+      (ignoreTicked r = true → i ∉ b.ticked) → (i ∈ h.cache r ∧ ¬ dead r i) ∨ releasable L mw mc b h r i = true
   nwDone : ∀ k i w', (i, w') ∈ h.nw k → ∃ sn d w r whole l0, b.nodes[i]? = some (.sent sn d w) ∧
       L.ruleFor sn d = some (r, whole, l0) ∧ groupsDone b (instGroups whole l0 w none (some w') r) = true
   ticked : ∀ i ∈ b.ticked, ∃ sn d w, b.nodes[i]? = some (.sent sn d w) ∧ tickDone L b sn d w
@@ -98,7 +98,7 @@ theorem mem_live {s : SState} {bi : Nat} {h : BranchH} (hh : s.hs[bi]? = some h)
   simp [SState.live, hh, List.mem_filter]
 
 theorem branchInv_iff {L : LogicData} {s : SState} {bi : Nat} {b : Branch} {h : BranchH} (hh : s.hs[bi]? = some h) :
-    BranchInv L s bi b h ↔ HInv L s.maxWorlds (fun r i => (bi, i) ∈ s.garbage r) b h := by
+    BranchInv L s bi b h ↔ HInv L s.maxWorlds s.maxConsts (fun r i => (bi, i) ∈ s.garbage r) b h := by
   constructor
   · intro I
     exact { windex := I.windex, unserial := I.unserial, cacheSound := I.cacheSound,
@@ -170,6 +170,16 @@ theorem exceeded_mono (mw : Nat) {ns : List Node} (hb : b'.nodes = b.nodes ++ ns
   simp only [exceeded, decide_eq_true_eq]
   omega
 
+theorem constExceeded_mono (mc : Nat) {ns : List Node} (hb : b'.nodes = b.nodes ++ ns) (w : Option Nat)
+    (h : constExceeded mc b w = true) : constExceeded mc b' w = true := by
+  have h1 : mc < (constsAt b (w.getD 0)).length := by simpa [constExceeded] using h
+  have h2 : (constsAt b (w.getD 0)).length ≤ (constsAt b' (w.getD 0)).length := by
+    simp only [constsAt, dedupPair]
+    rw [hb, List.flatMap_append, List.eraseDups_append, List.length_append]
+    omega
+  simp only [constExceeded, decide_eq_true_eq]
+  omega
+
 end mono
 
 /-! ### one node appended: all `AFTER_NODE_ADD` listeners -/
@@ -231,20 +241,25 @@ theorem windex_addNode {L : LogicData} {b : Branch} {h : BranchH} {nd : Node} {p
   | flag _ => simp
   | ellipsis => simp
 
-theorem releasable_mono {L : LogicData} {mw : Nat} {b : Branch} {h : BranchH} {nd : Node} {r : RuleId} {i : Nat}
-    (hi : i < b.nodes.length) (hr : releasable L mw b h r i = true) :
-    releasable L mw (Branch.snoc b nd) (h.addNode L b nd) r i = true := by
+theorem releasable_mono {L : LogicData} {mw mc : Nat} {b : Branch} {h : BranchH} {nd : Node} {r : RuleId} {i : Nat}
+    (hi : i < b.nodes.length) (hr : releasable L mw mc b h r i = true) :
+    releasable L mw mc (Branch.snoc b nd) (h.addNode L b nd) r i = true := by
   have hex : exceeded mw b = true → exceeded mw (Branch.snoc b nd) = true :=
     exceeded_mono mw (ns := [nd]) rfl
   have hwi : ∀ p, p ∈ h.windex → p ∈ (h.addNode L b nd).windex := fun p hp => windex_addNode.2 (Or.inl hp)
   cases r with
   | closure => simp [releasable] at hr
   | table k =>
-    simp only [releasable] at hr ⊢
+    simp only [releasable, snoc_get_lt hi] at hr ⊢
     split at hr
     · next rl hrl =>
-      simp only [Bool.and_eq_true] at hr ⊢
-      exact ⟨hr.1, hex hr.2⟩
+      simp only [Bool.or_eq_true, Bool.and_eq_true] at hr ⊢
+      rcases hr with hr | hr
+      · exact Or.inl ⟨hr.1, hex hr.2⟩
+      · refine Or.inr ⟨hr.1, ?_⟩
+        split at hr
+        · next sn d w hx => exact constExceeded_mono mc (ns := [nd]) rfl w hr.2
+        · exact absurd hr.2 (by simp)
     · cases hr
   | frame fr =>
     cases fr with
@@ -326,12 +341,12 @@ theorem litSet_snoc_eq {L : LogicData} {b : Branch} {nd : Node} {z : Sent} {w : 
   rw [Bool.eq_iff_iff]
   simp only [List.contains_iff_mem, List.mem_append, List.mem_singleton, this, or_false]
 
-theorem HInv.addNode {L : LogicData} {mw : Nat} {dead : RuleId → Nat → Prop} {b : Branch} {h : BranchH}
-    (H : HInv L mw dead b h) (nd : Node)
+theorem HInv.addNode {L : LogicData} {mw mc : Nat} {dead : RuleId → Nat → Prop} {b : Branch} {h : BranchH}
+    (H : HInv L mw mc dead b h) (nd : Node)
     (hwld : L.modal = true → ∀ sn d w, nd = .sent sn d w → w.isSome = true)
     (hdead : ∀ r, ¬ dead r b.nodes.length)
     (hls : ∀ w2, h.lastSerial = some w2 → ∀ sn d, nd ≠ .sent sn d (some w2)) :
-    HInv L mw dead (Branch.snoc b nd) (h.addNode L b nd) := by
+    HInv L mw mc dead (Branch.snoc b nd) (h.addNode L b nd) := by
   have hmem : ∀ x, x ∈ (Branch.snoc b nd).nodes ↔ x ∈ b.nodes ∨ x = nd := by
     intro x; simp [Branch.snoc]
   have htk : ∀ i ∈ b.ticked, i < b.nodes.length := by
@@ -481,12 +496,12 @@ theorem HInv.addNode {L : LogicData} {mw : Nat} {dead : RuleId → Nat → Prop}
 
 
 /-- `Branch.extend(nodes)`: the invariant survives any list of appended nodes -/
-theorem HInv.grow {L : LogicData} {mw : Nat} {dead : RuleId → Nat → Prop} :
-    ∀ (ns : List Node) (b : Branch) (h : BranchH), HInv L mw dead b h →
+theorem HInv.grow {L : LogicData} {mw mc : Nat} {dead : RuleId → Nat → Prop} :
+    ∀ (ns : List Node) (b : Branch) (h : BranchH), HInv L mw mc dead b h →
       (L.modal = true → ∀ sn d w, Node.sent sn d w ∈ ns → w.isSome = true) →
       (∀ r i, b.nodes.length ≤ i → ¬ dead r i) →
       (∀ w2, h.lastSerial = some w2 → ∀ sn d, Node.sent sn d (some w2) ∉ ns) →
-      HInv L mw dead { b with nodes := b.nodes ++ ns } (h.grow L b ns)
+      HInv L mw mc dead { b with nodes := b.nodes ++ ns } (h.grow L b ns)
   | [], b, h, H, _, _, _ => by simpa [BranchH.grow] using H
   | nd :: rest, b, h, H, hw, hd, hl => by
       have H1 := H.addNode nd (fun hm sn d w he => hw hm sn d w (by simp [he])) (fun r => hd r _ (Nat.le_refl _))
@@ -497,8 +512,8 @@ theorem HInv.grow {L : LogicData} {mw : Nat} {dead : RuleId → Nat → Prop} :
         (fun w2 h2 sn d hx => hl w2 (by simpa [BranchH.addNode] using h2) sn d (List.mem_cons_of_mem _ hx))
       simpa [BranchH.grow, Branch.snoc] using ih
 
-theorem HInv.empty (L : LogicData) (mw : Nat) (dead : RuleId → Nat → Prop) :
-    HInv L mw dead { nodes := [] } {} := by
+theorem HInv.empty (L : LogicData) (mw mc : Nat) (dead : RuleId → Nat → Prop) :
+    HInv L mw mc dead { nodes := [] } {} := by
   refine { windex := ?_, unserial := ?_, cacheSound := ?_, cacheComplete := ?_, nwDone := ?_, ticked := ?_,
            closeNone := ?_, closeSome := ?_, worlded := ?_, lastSerial := ?_ }
   · intro a c; simp
@@ -525,9 +540,9 @@ theorem inv_init (L : LogicData) (nodes : List Node)
       simp only [SState.init, List.getElem?_cons_zero, Option.some.injEq] at hb hh
       subst hb; subst hh
       rw [branchInv_iff hh0]
-      have := HInv.grow (L := L) (mw := (SState.init L nodes).maxWorlds)
+      have := HInv.grow (L := L) (mw := (SState.init L nodes).maxWorlds) (mc := (SState.init L nodes).maxConsts)
         (dead := fun r i => (0, i) ∈ (SState.init L nodes).garbage r) nodes { nodes := [] } {}
-        (HInv.empty L _ _) hw (fun r i _ hp => by simp [SState.init, SState.garbage, aget] at hp) (fun w2 hl => by cases hl)
+        (HInv.empty L _ _ _) hw (fun r i _ hp => by simp [SState.init, SState.garbage, aget] at hp) (fun w2 hl => by cases hl)
       simpa using this
     | (n + 1), hb, _ => simp [SState.init] at hb
 
@@ -535,11 +550,11 @@ theorem inv_init (L : LogicData) (nodes : List Node)
 /-! ### `Ev.search`: gc and release -/
 
 /-- changing the caches (and what counts as queued) keeps the invariant as long as nothing live is lost without reason -/
-theorem HInv.recache {L : LogicData} {mw : Nat} {dead dead' : RuleId → Nat → Prop} {b : Branch} {h : BranchH}
-    (H : HInv L mw dead b h) (c : List (RuleId × List Nat))
+theorem HInv.recache {L : LogicData} {mw mc : Nat} {dead dead' : RuleId → Nat → Prop} {b : Branch} {h : BranchH}
+    (H : HInv L mw mc dead b h) (c : List (RuleId × List Nat))
     (hsub : ∀ r i, i ∈ aget [] c r → i ∈ h.cache r)
-    (hkeep : ∀ r i, i ∈ h.cache r → ¬ dead r i → (i ∈ aget [] c r ∧ ¬ dead' r i) ∨ releasable L mw b h r i = true) :
-    HInv L mw dead' b { h with caches := c } :=
+    (hkeep : ∀ r i, i ∈ h.cache r → ¬ dead r i → (i ∈ aget [] c r ∧ ¬ dead' r i) ∨ releasable L mw mc b h r i = true) :
+    HInv L mw mc dead' b { h with caches := c } :=
   { windex := H.windex, unserial := H.unserial
     cacheSound := fun r i hi => H.cacheSound r i (hsub r i hi)
     cacheComplete := fun r i nd hn hm ht => by
@@ -553,6 +568,7 @@ theorem HInv.recache {L : LogicData} {mw : Nat} {dead dead' : RuleId → Nat →
 
 theorem gc_tab (s : SState) (r : RuleId) : (s.gc r).tab = s.tab := rfl
 theorem gc_maxWorlds (s : SState) (r : RuleId) : (s.gc r).maxWorlds = s.maxWorlds := rfl
+theorem gc_maxConsts (s : SState) (r : RuleId) : (s.gc r).maxConsts = s.maxConsts := rfl
 
 theorem gc_garbage (s : SState) (r r' : RuleId) : (s.gc r).garbage r' = if r' = r then [] else s.garbage r' := by
   by_cases he : (s.garbage r).isEmpty = true
@@ -622,10 +638,10 @@ theorem inv_gc {L : LogicData} {s : SState} (hinv : Inv L s) (r : RuleId) : Inv 
 theorem inv_release {L : LogicData} {s1 : SState} (hinv : Inv L s1) (r : RuleId) (bi : Nat) {b : Branch} {h : BranchH}
     (hg : s1.garbage r = []) (hb : s1.tab[bi]? = some b) (hh : s1.hs[bi]? = some h) (ho : b.closed = false) :
     Inv L { s1 with garbages := amod [] (fun _ =>
-      ((h.cache r).filter (releasable L s1.maxWorlds b h r)).map (fun i => (bi, i))) s1.garbages r } := by
+      ((h.cache r).filter (releasable L s1.maxWorlds s1.maxConsts b h r)).map (fun i => (bi, i))) s1.garbages r } := by
   have hgar : ∀ r', SState.garbage { s1 with garbages := amod [] (fun _ =>
-        ((h.cache r).filter (releasable L s1.maxWorlds b h r)).map (fun i => (bi, i))) s1.garbages r } r' =
-      if r' = r then ((h.cache r).filter (releasable L s1.maxWorlds b h r)).map (fun i => (bi, i)) else s1.garbage r' := by
+        ((h.cache r).filter (releasable L s1.maxWorlds s1.maxConsts b h r)).map (fun i => (bi, i))) s1.garbages r } r' =
+      if r' = r then ((h.cache r).filter (releasable L s1.maxWorlds s1.maxConsts b h r)).map (fun i => (bi, i)) else s1.garbage r' := by
     intro r'
     simp only [SState.garbage, aget_amod]
   have I0 := (branchInv_iff hh).1 (hinv.branch bi b h hb hh ho)
@@ -645,7 +661,7 @@ theorem inv_release {L : LogicData} {s1 : SState} (hinv : Inv L s1) (r : RuleId)
     have I := (branchInv_iff hh'').1 (hinv.branch bj b' h' hb' hh'' ho')
     rw [branchInv_iff (s := { s1 with garbages := _ }) hh']
     have := I.recache (dead' := fun r' i => (bj, i) ∈ SState.garbage { s1 with garbages := amod [] (fun _ =>
-        ((h.cache r).filter (releasable L s1.maxWorlds b h r)).map (fun i => (bi, i))) s1.garbages r } r') h'.caches
+        ((h.cache r).filter (releasable L s1.maxWorlds s1.maxConsts b h r)).map (fun i => (bi, i))) s1.garbages r } r') h'.caches
       (fun r' i hi => hi) ?_
     · exact this
     · intro r' i hi hd
@@ -658,7 +674,7 @@ theorem inv_release {L : LogicData} {s1 : SState} (hinv : Inv L s1) (r : RuleId)
           rw [hb] at hb'; rw [hh] at hh''
           simp only [Option.some.injEq] at hb' hh''
           subst hb'; subst hh''
-          by_cases hrel : releasable L s1.maxWorlds b h r' i = true
+          by_cases hrel : releasable L s1.maxWorlds s1.maxConsts b h r' i = true
           · exact Or.inr hrel
           · left
             refine ⟨hi, ?_⟩
@@ -683,8 +699,8 @@ theorem inv_search {L : LogicData} {s : SState} (hinv : Inv L s) (r : RuleId) (b
     · exact h1
     · next ho =>
       have := inv_release h1 r bi hg hb hh (by simpa using ho)
-      rw [gc_maxWorlds] at this
-      generalize hrel : ((h.cache r).filter (releasable L s.maxWorlds b h r)).map (fun i => (bi, i)) = rel at this ⊢
+      rw [gc_maxWorlds, gc_maxConsts] at this
+      generalize hrel : ((h.cache r).filter (releasable L s.maxWorlds s.maxConsts b h r)).map (fun i => (bi, i)) = rel at this ⊢
       cases rel with
       | nil => exact h1
       | cons x xs => exact this
